@@ -31,11 +31,94 @@ def opDistance (K : Type) [ScalarT K] [Wire K] (op : String) : P String := do
       return "ok " ++ Wire.render (euclid (transform L x) (transform L y))
   | _ => throw s!"unknown op {op}"
 
+def renderInts (l : List Int) : String := " ".intercalate (l.map toString)
+
+def labelsOf (a : Array Int) : Except String (List Bool) :=
+  a.toList.mapM fun v => if v == 1 then .ok true else if v == -1 then .ok false else .error "label not in {-1,+1}"
+
+/-- C04 ops on the implementation's own distances -/
+def opClassify (K : Type) [Scalar K] [Wire K] (op : String) : P String := do
+  match op with
+  | "predict_pair" => do
+      let n ← nat; let thr ← scalar K; let ds ← arr K n; finish
+      return "ok " ++ renderInts (ds.toList.map (predictPair thr))
+  | "decision_trip" => do
+      let n ← nat; let dab ← arr K n; let dac ← arr K n; finish
+      return "ok " ++ renderArr ((dab.zip dac).map fun (a, b) => decisionTriplet a b)
+  | "predict_trip" => do
+      let n ← nat; let dab ← arr K n; let dac ← arr K n; finish
+      return "ok " ++ renderInts ((dab.zip dac).toList.map fun (a, b) => predictTriplet a b)
+  | "decision_quad" => do
+      let n ← nat; let dab ← arr K n; let dcd ← arr K n; finish
+      return "ok " ++ renderArr ((dab.zip dcd).map fun (a, b) => decisionQuad a b)
+  | "predict_quad" => do
+      let n ← nat; let dab ← arr K n; let dcd ← arr K n; finish
+      return "ok " ++ renderInts ((dab.zip dcd).toList.map fun (a, b) => predictQuad a b)
+  | "score_frac" => do
+      let n ← nat; let ps ← intArr n; finish
+      if n == 0 then throw "empty prediction list"
+      return "ok " ++ Wire.render (scoreFrac (K := K) ps.toList)
+  | "auc" => do
+      let n ← nat; let sc ← arr K n; let ls ← intArr n; finish
+      match labelsOf ls with
+      | .error e => throw e
+      | .ok labels =>
+        if !(labels.any id) || labels.all id then return "err valueError"
+        return "ok " ++ Wire.render (auc sc.toList labels)
+  | _ => throw s!"unknown op {op}"
+
+/-- C16: optimum of the specification on the implementation's own validation distances, and the
+criterion value / feasibility of the implementation's threshold -/
+def opCalib : P String := do
+  let strat ← next
+  let n ← nat
+  let ds ← arr Rat n
+  let ls ← intArr n
+  let param ← scalar Rat
+  let thrImpl ← scalar Rat
+  finish
+  match labelsOf ls with
+  | .error e => throw e
+  | .ok labels =>
+    let s? : Option (Strategy Rat) := match strat with
+      | "accuracy" => some .accuracy
+      | "f_beta" => some (.fBeta param)
+      | "max_tpr" => some (.maxTpr param)
+      | "max_tnr" => some (.maxTnr param)
+      | _ => none
+    match s? with
+    | none => throw "unknown strategy"
+    | some s =>
+      let dl := ds.toList
+      match calibrate s dl labels with
+      | none => return "ok none"
+      | some b =>
+        let opt := s.crit labels (preds dl b)
+        let got := s.crit labels (preds dl thrImpl)
+        let feas := s.feas labels (preds dl thrImpl)
+        return s!"ok {Wire.render opt} {Wire.render got} {if feas then 1 else 0} {Wire.render b}"
+
+def opValidateCalib : P String := do
+  let strat ← next
+  let rd : P (PyNum Rat) := do
+    let k ← next
+    match k with
+    | "none" => return .none
+    | "other" => return .other
+    | "num" => return .num (← scalar Rat)
+    | _ => throw "bad PyNum"
+  let mr ← rd; let b ← rd; finish
+  return if validateCalib strat mr b then "ok accepted" else "err valueError"
+
 def dispatch : P String := do
   let op ← next
   match op with
   | "dist" | "score" | "metric" | "transform" | "mahal" | "mahalquad" | "embdist" =>
       opDistance Float op
+  | "decision_trip" | "decision_quad" => opClassify Float op
+  | "predict_pair" | "predict_trip" | "predict_quad" | "score_frac" | "auc" => opClassify Rat op
+  | "calib" => opCalib
+  | "validate_calib" => opValidateCalib
   | _ => throw s!"unknown op {op}"
 
 def handle (line : String) : String :=
